@@ -19,7 +19,13 @@ DESIGN_REF = "DESIGN.md §6 C03"
 
 
 def plan(ctx):
-    return pc.plan_proc(ctx, ID, ["lifecycle", "lifecycle", "mixed"], 80, 4000)
+    rng, tier = ctx["rng"], ctx["tier"]
+    from checks import gen_proc
+    from checks.common import corpus
+    n = 60 if tier == "quick" else 4000
+    seqs = [("life%d" % i, gen_proc.lifecycle_history(rng)) for i in range(n)]
+    seqs += [("h%d" % i, gen_proc.history(rng, profile=rng.choice(["lifecycle", "mixed"]))) for i in range(n // 2)]
+    return [("corpus", corpus(ID)), ("gen", seqs)]
 
 
 def run(ctx, bname, seqs):
